@@ -28,6 +28,29 @@ symbol), with everything a static evaluator with constant folding can honestly r
     the module (or a function-level import) gives it; `super().m(...)` is `Base.m(self, ...)`; `functools.partial`, `functools.reduce`,
     the functions of `operator`, `divmod` are evaluated.
 
+Pass 4 -- a value produced through a construct the evaluator does not follow is never a partially evaluated value:
+
+  * the module is evaluated *as written* (RawModule: the shared source model's canonicalisation -- renamed locals, inlined temporaries,
+    rewritten `enumerate` loops -- is made for shape-matching rules and is not applied);
+  * iterators have state: zip / map / filter / enumerate / reversed / iter / generator expressions / itertools.* are IterV objects that
+    produce items on demand (`next()` advances them, a `for` over one takes what is left); a function with `yield` is a generator whose
+    body runs when items are asked for (`_gen_run`); `itertools.repeat(x, n)` with a symbolic n is a counted loop;
+  * a Python list is a mutable object shared by its aliases (append / extend / pop / insert / item stores / `+=`; elements that are arrays
+    are updated in place through the list); dicts likewise (a method that is not followed poisons the dict); tuples are immutable;
+  * every mutation is journalled (`begin` / `rollback` / `commit`): both arms of an undecided `if` are run from the same state and what
+    they leave is compared location by location (locals, arrays, list / dict / attribute slots); a loop is unrolled by constant folding
+    in a trial and, when a test in it turns out undecided, rolled back and summarised by one symbolic pass;
+  * loop normal form: an `if <undecided>: break` in the single pass is an *exit* of the loop (`while True: if not c: break` is
+    `while c:`); a counted loop leaves <name>@out<k>, a loop whose number of passes depends on data leaves <name>@exit<k>, which the
+    rules treat as not evaluated; arrays updated in place by the pass without the name being assigned (`np.add(.., out=X)`,
+    a closure with `nonlocal`) are discovered by a first pass and carried; anything else the pass changes is not known afterwards;
+  * `f(..., out=X)`, `np.copyto`, `X.fill`, `operator.iadd` update the array object; a library call written as a statement that the
+    evaluator has no model of clobbers the arrays it is given (opaque `call:not-followed`, reported as not evaluated);
+  * `try` runs the handler that catches an exception raised for certain in the body (builtin hierarchy), `finally` always;
+    `nonlocal` / `global` / `del`; decorators of the module are applied (memoisation / marker decorators are transparent, anything else
+    makes the call Unknown); defaults are evaluated at definition time; module-defined base classes (methods, class constants,
+    `super()`); dataclasses, typing.NamedTuple / collections.namedtuple, objects with __call__ / __iter__ / __getitem__ / __len__.
+
 Nothing of /repo is imported or executed; there is no numeric sampling: numbers are exact rationals read from the literals' decimal text.
 """
 from __future__ import annotations
@@ -74,6 +97,7 @@ class ClassV:
                 self.methods[n.name] = n
         self.consts = {}
         self.bases = None                        # module-defined base classes, resolved on first use
+        self.closure = None                      # the frame a class defined inside a function sees
 
     def __repr__(self):
         return f"<class {self.name}>"
@@ -85,7 +109,11 @@ class FuncV:
         self.qual = qual or getattr(node, "_vqual", None) or getattr(node, "name", "<lambda>")
 
     def bind(self, obj):
-        return FuncV(self.node, self.mod, self.closure, obj, self.cls, self.qual)
+        g = FuncV(self.node, self.mod, self.closure, obj, self.cls, self.qual)
+        g.decorated = getattr(self, "decorated", False)
+        if hasattr(self, "defaults"):
+            g.defaults, g.kw_defaults = self.defaults, self.kw_defaults
+        return g
 
     def __repr__(self):
         return f"<func {self.qual}>"
@@ -107,6 +135,7 @@ class Obj:
 class DictV:
     def __init__(self):
         self.d = {}          # key -> (key value, value)
+        self.poisoned = None  # why its content is not known any more (a method that was not followed)
 
     def __repr__(self):
         return "DictV(%r)" % ({k: v[1] for k, v in self.d.items()},)
@@ -143,9 +172,19 @@ class IterV:
         self.buf = []
         self.pos = 0
         self.done = False
+        self.broken = None          # why the producer could not be followed (once set, asking for an item is not lowered)
 
     def __repr__(self):
         return f"<{self.what}>"
+
+
+class NamedT(tuple):
+    """an instance of a collections.namedtuple class: a tuple whose items also have names"""
+    _names = ()
+
+
+class PoisonedSeq(Unknown):
+    """the only item of a list whose content (and length) is not known any more"""
 
 
 class Native:
@@ -474,7 +513,8 @@ def pow_const_base(base, expo):
 STD_NAMES = (("scipy.sparse.linalg._matfuncs", "mf"), ("scipy.sparse.linalg.matfuncs", "mf"), ("scipy.sparse.linalg", "spla"),
              ("scipy.sparse.isspmatrix", "isspmatrix"), ("scipy.sparse.issparse", "isspmatrix"), ("scipy.sparse", "scipy.sparse"), ("scipy.linalg", "la"), ("scipy.signal", "signal"),
              ("numpy", "np"), ("pyyeti.expmint", "expmint"), ("functools", "functools"), ("operator", "operator"), ("math", "math"),
-             ("itertools", "itertools"), ("warnings", "warnings"))
+             ("itertools", "itertools"), ("warnings", "warnings"), ("collections", "collections"), ("copy", "copy"), ("dataclasses", "dataclasses"),
+             ("typing", "typing"), ("contextlib", "contextlib"), ("enum", "enum"))
 
 
 def canon_dotted(full):
@@ -742,7 +782,7 @@ def _has_yield(st):
     return isinstance(st, (ast.Yield, ast.YieldFrom)) or _scan_own(st, (ast.Yield, ast.YieldFrom))
 
 
-TRANSPARENT_DECORATORS = {"staticmethod", "classmethod", "property", "functools.lru_cache", "functools.cache", "lru_cache", "cache", "functools.wraps",
+TRANSPARENT_DECORATORS = {"contextlib.contextmanager", "contextmanager", "staticmethod", "classmethod", "property", "functools.lru_cache", "functools.cache", "lru_cache", "cache", "functools.wraps",
                           "abstractmethod", "abc.abstractmethod", "typing.final", "final", "override", "typing.override", "typing.no_type_check"}
 
 
@@ -1020,6 +1060,8 @@ class Interp:
         elif k == "iter":
             _k, itv, pos = e
             itv.pos = pos
+        elif k == "dictflag":
+            e[1].poisoned = e[2]
 
     def _set_var(self, fr, name, v):
         d = fr.outer.get(name, fr.vars)          # (a name declared nonlocal / global is bound where it lives)
@@ -1090,7 +1132,7 @@ class Interp:
         kind, st = found
         if kind == "func":
             self.src.funcs_consulted.add(f"{mod.rel}:{st.name}")
-            v = FuncV(st, mod, None, None, None, st.name)
+            v = self._decorate(FuncV(st, mod, None, None, None, st.name), Frame(None, None, mod))
         elif kind == "class":
             v = self.cls(st.name, mod)
         else:
@@ -1207,6 +1249,8 @@ class Interp:
 
     # ------------------------------------------------------------------ truth
     def truth(self, v, node=None):
+        if isinstance(v, list) and any(isinstance(x, PoisonedSeq) for x in v):
+            return None
         if v is None or v is False:
             return False
         if v is True:
@@ -1410,10 +1454,10 @@ class Interp:
                 self.src.funcs_consulted.add(f"{c.mod.rel}:{c.name}.{name}")
                 deco = {d.id for d in fn.decorator_list if isinstance(d, ast.Name)}
                 if "staticmethod" in deco:
-                    return FuncV(fn, c.mod, None, None, c, f"{c.name}.{name}")
+                    return FuncV(fn, c.mod, c.closure, None, c, f"{c.name}.{name}")
                 if "classmethod" in deco:
-                    return FuncV(fn, c.mod, None, c, c, f"{c.name}.{name}")
-                f = FuncV(fn, c.mod, None, base, c, f"{c.name}.{name}")
+                    return FuncV(fn, c.mod, c.closure, c, c, f"{c.name}.{name}")
+                f = FuncV(fn, c.mod, c.closure, base, c, f"{c.name}.{name}")
                 if "property" in deco:
                     return self._invoke(f, [], {}, node or fn)
                 return f
@@ -1430,6 +1474,40 @@ class Interp:
                 if r is not NotImplemented:
                     return r
             return F.fn("attr:" + name, base)
+        if isinstance(base, NamedT):
+            if name in base._names:
+                return base[base._names.index(name)]
+            c = getattr(base, "_cls", None)
+            if name == "_fields":
+                return tuple(base._names)
+            if name == "_replace":
+                b_ = base
+
+                def repl(it_, p_, k_, nd_):
+                    if p_ or any(k not in b_._names for k in k_):
+                        return Crash("TypeError: _replace() got unexpected arguments")
+                    t = NamedT(k_.get(n_, v_) for n_, v_ in zip(b_._names, b_))
+                    t._names = b_._names
+                    if c is not None:
+                        t._cls = c
+                    return t
+                return Native("namedtuple._replace", repl)
+            if c is not None and name in c.methods:
+                fn = c.methods[name]
+                f = FuncV(fn, c.mod, c.closure, base, c, f"{c.name}.{name}")
+                if any(isinstance(d, ast.Name) and d.id == "property" for d in fn.decorator_list):
+                    return self._invoke(f, [], {}, node or fn)
+                return f
+            return Unknown(f"attribute {name} of a namedtuple")
+        if isinstance(base, ClassV) and name in ("_make", "_fields") and self._record_class(base) == "namedtuple" and name not in base.methods:
+            if name == "_fields":
+                return tuple(n for n, _d in self._fields(base))
+            c_ = base
+
+            def make(it_, p_, k_, nd_):
+                xs = it_._iterable(p_[0]) if len(p_) == 1 and not k_ else None
+                return it_._construct(c_, xs, {}, nd_) if xs is not None else Unknown("namedtuple._make of an unknown sequence")
+            return Native(f"{base.name}._make", make)
         if isinstance(base, ClassV):
             cls0 = base
             base = self._owner(base, name)
@@ -1437,7 +1515,7 @@ class Interp:
                 fn = base.methods[name]
                 self.src.funcs_consulted.add(f"{base.mod.rel}:{base.name}.{name}")
                 bound = cls0 if any(isinstance(d, ast.Name) and d.id == "classmethod" for d in fn.decorator_list) else None
-                return FuncV(fn, base.mod, None, bound, base, f"{base.name}.{name}")
+                return FuncV(fn, base.mod, base.closure, bound, base, f"{base.name}.{name}")
             if name == "__name__":
                 return cls0.name
             cv = self._class_const(base, name)
@@ -1451,7 +1529,7 @@ class Interp:
             c.bases = []
             for b in c.node.bases:
                 try:
-                    bv = self.ev(b, Frame(None, None, c.mod))
+                    bv = self.ev(b, Frame(None, c.closure, c.mod))
                 except Unsupported:
                     continue
                 if isinstance(bv, ClassV) and bv is not c:
@@ -1485,7 +1563,7 @@ class Interp:
         st = found[0]
         c.consts[name] = Unknown(f"recursive class constant {name}")
         try:
-            val = self.ev(st.value, Frame(None, None, c.mod))
+            val = self.ev(st.value, Frame(None, c.closure, c.mod))
         except Unsupported as e:
             val = Unknown(str(e))
         tmp = Frame(None, None, c.mod)
@@ -1546,7 +1624,7 @@ class Interp:
                 return a * int(cval(b))
             return Unknown("string operator")
         if isinstance(a, SEQ) and isinstance(b, SEQ) and isinstance(op, ast.Add):
-            if type(a) is not type(b):
+            if isinstance(a, list) != isinstance(b, list):
                 return Crash("TypeError: can only concatenate a list to a list, a tuple to a tuple")
             return a + b
         if isinstance(a, SEQ) and is_const(b) and isinstance(op, ast.Mult) and cval(b).denominator == 1:
@@ -1691,9 +1769,11 @@ class Interp:
         if isinstance(op, (ast.In, ast.NotIn)):
             neg = isinstance(op, ast.NotIn)
             if isinstance(b, DictV):
+                if b.poisoned is not None:
+                    return Unknown(b.poisoned)
                 k = key_of(a)
-                if k is None:
-                    return Unknown("membership of an unhashable value")
+                if k is None or (isinstance(a, F.Rat) and not is_const(a)):
+                    return Unknown("membership of a value that is not a literal key")
                 r = k in b.d
                 return (not r) if neg else r
             if isinstance(b, (tuple, list, str)) and not (isinstance(b, str) and not isinstance(a, str)):
@@ -1741,7 +1821,7 @@ class Interp:
         if isinstance(a, Ref) and isinstance(b, Ref):
             return True if a.name == b.name else None
         if isinstance(a, SEQ) and isinstance(b, SEQ):
-            if type(a) is not type(b):
+            if isinstance(a, list) != isinstance(b, list):
                 return False                    # (a list never equals a tuple)
             if len(a) != len(b):
                 return False
@@ -1782,6 +1862,17 @@ class Interp:
                 return v
         return tuple(out)
 
+    def _e_Set(self, node, fr):
+        """a set literal: used for membership tests and iteration (kept as a tuple without duplicates; sets are not mutated here)"""
+        v = self._e_Tuple(node, fr)
+        if not isinstance(v, tuple):
+            return v
+        out = []
+        for x in v:
+            if not any(same_value(x, y) for y in out):
+                out.append(x)
+        return tuple(out)
+
     def _e_List(self, node, fr):
         v = self._e_Tuple(node, fr)
         return list(v) if isinstance(v, tuple) else v
@@ -1790,7 +1881,11 @@ class Interp:
         d = DictV()
         for k, v in zip(node.keys, node.values):
             if k is None:
-                return Unknown("dict unpacking")
+                src = self.ev(v, fr)
+                if not isinstance(src, DictV) or src.poisoned is not None:
+                    return Unknown("dict unpacking of a value that is not a followed dict")
+                d.d.update(src.d)
+                continue
             kv = self.ev(k, fr)
             key = key_of(kv)
             if key is None:
@@ -1816,7 +1911,15 @@ class Interp:
         return "".join(parts)
 
     def _e_Lambda(self, node, fr):
-        return FuncV(node, fr.mod or self.mod, fr, None, None, "<lambda>")
+        return self._with_defaults(FuncV(node, fr.mod or self.mod, fr, None, None, "<lambda>"), fr)
+
+    def _with_defaults(self, f, fr):
+        """default values are evaluated when the function is defined (`lambda x, c=c: ...` in a loop keeps that iteration's c)"""
+        a = f.node.args
+        if a.defaults or any(d is not None for d in a.kw_defaults):
+            f.defaults = [self.ev(d, fr) for d in a.defaults]
+            f.kw_defaults = [None if d is None else self.ev(d, fr) for d in a.kw_defaults]
+        return f
 
     def _e_Slice(self, node, fr):
         return self._index_value(node, fr)
@@ -1853,7 +1956,21 @@ class Interp:
         try:
             if isinstance(sl, ast.Slice):
                 return slice(c(sl.lower), c(sl.upper), c(sl.step))
-            return c(sl)
+            v = self.ev(sl, fr)
+            p = fn_parts(v) if isinstance(v, F.Rat) else None
+            if p is not None and p[0] == "slice" and len(p[1]) == 3:       # a slice(...) object
+                parts = []
+                for x in p[1]:
+                    if _named(x, "None"):
+                        parts.append(None)
+                    elif is_const(x) and cval(x).denominator == 1:
+                        parts.append(int(cval(x)))
+                    else:
+                        return None
+                return slice(*parts)
+            if is_const(v) and cval(v).denominator == 1:
+                return int(cval(v))
+            return None
         except Unsupported:
             return None
 
@@ -1861,6 +1978,8 @@ class Interp:
         base = self.ev(node.value, fr)
         if is_unknown(base):
             return base
+        if isinstance(base, list) and any(isinstance(x, PoisonedSeq) for x in base):
+            return base[0]
         if isinstance(base, (tuple, list, str)):
             ix = self._py_index(node.slice, fr)
             if ix is None:
@@ -1880,6 +1999,8 @@ class Interp:
             k = key_of(kv)
             if k is None or (isinstance(kv, F.Rat) and not is_const(kv)):
                 return kv if is_unknown(kv) else Unknown(f"dict lookup {ast.unparse(node)}")
+            if base.poisoned is not None:
+                return Unknown(base.poisoned)
             if k not in base.d:
                 return Crash(f"KeyError: {ast.unparse(node)}")
             return base.d[k][1]
@@ -1891,6 +2012,9 @@ class Interp:
                 return ix
             root, ix = self.subscript(base, ix)
             return F.fn("idx", root, ix)
+        if isinstance(base, Obj) and base.cls is not None and "__getitem__" in self._owner(base.cls, "__getitem__").methods:
+            return self.apply(self._getattr(base, "__getitem__", node), [self._index_value(node.slice, fr) if isinstance(node.slice, (ast.Slice, ast.Tuple))
+                                                                        else self.ev(node.slice, fr)], {}, node, fr)
         if isinstance(base, Ref) and base.name in ("np.s_", "np.index_exp", "numpy.s_", "numpy.index_exp"):
             ix = self._index_value(node.slice, fr)          # np.s_[a:b, c:d] is the index itself
             if base.name.endswith("index_exp") and not is_unknown(ix) and not _index_items(ix)[1]:
@@ -1911,7 +2035,7 @@ class Interp:
             if seq is None:
                 raise Unsupported(f"comprehension over an unknown sequence: {ast.unparse(g.iter)}")
             for item in seq:
-                f2 = Frame(f.func, f, f.mod)
+                f2 = scope
                 self._bind_target(g.target, item, f2, g.iter)
                 ok = True
                 for cond in g.ifs:
@@ -1923,7 +2047,9 @@ class Interp:
                         break
                 if ok:
                     rec(i + 1, f2)
-        rec(0, fr)
+        scope = Frame(fr.func, fr, fr.mod)          # (a comprehension is one scope: its loop variables are rebound, closures see the last)
+        scope.gen = fr.gen
+        rec(0, scope)
 
     def _e_ListComp(self, node, fr):
         out = []
@@ -1947,7 +2073,7 @@ class Interp:
                 if seq is None:
                     raise Unsupported(f"generator expression over an unknown sequence: {ast.unparse(g.iter)}")
             for item in seq:
-                f2 = Frame(f.func, f, f.mod)
+                f2 = scope
                 self._bind_target(g.target, item, f2, g.iter)
                 ok = True
                 for cond in g.ifs:
@@ -1964,7 +2090,9 @@ class Interp:
                 else:
                     yield from rec(i + 1, f2, None)
 
-        return IterV(rec(0, fr, first), "generator expression")
+        scope = Frame(fr.func, fr, fr.mod)          # (one scope for the whole expression, as in Python)
+        scope.gen = True                            # (and it is a generator: its loops are not summarised)
+        return IterV(rec(0, scope, first), "generator expression")
 
     def _e_DictComp(self, node, fr):
         out = []
@@ -1983,8 +2111,12 @@ class Interp:
     def _iterable(self, v):
         """all (remaining) items of an iterable value as a list (an iterator is consumed), or None"""
         if isinstance(v, SEQ):
+            if any(isinstance(x, PoisonedSeq) for x in v):
+                return None
             return list(v)
         if isinstance(v, DictV):
+            if v.poisoned is not None:
+                return None
             return [kv for kv, _ in v.d.values()]
         if isinstance(v, str):
             return list(v)
@@ -1992,6 +2124,9 @@ class Interp:
             return list(self._iter(v))
         if isinstance(v, RepeatV) and is_const(v.count) and cval(v.count).denominator == 1:
             return [v.value] * max(int(cval(v.count)), 0)
+        if isinstance(v, Obj):
+            g = self._iter(v)
+            return list(g) if g is not None else None
         return None
 
     def _next(self, itv):
@@ -1999,6 +2134,8 @@ class Interp:
         if itv.pos < len(itv.buf):
             v = itv.buf[itv.pos]
         else:
+            if itv.broken is not None:
+                raise Unsupported(itv.broken)
             if itv.done:
                 raise _Stop()
             if len(itv.buf) >= MAX_UNROLL:
@@ -2012,6 +2149,10 @@ class Interp:
                 if "already executing" in str(e):
                     raise Unsupported(f"{itv.what} advanced re-entrantly")
                 raise
+            except Unsupported as e:
+                # (the host generator is dead now: what the iterator would have produced is not known, now or later)
+                itv.broken = f"{itv.what} could not be followed: {e}"
+                raise Unsupported(itv.broken)
             itv.buf.append(v)
         self._log("iter", itv, itv.pos)
         itv.pos += 1
@@ -2021,6 +2162,9 @@ class Interp:
         """a host iterator over the items of an iterable value, produced on demand (a list is read as it is at that moment); None when
         the value is not a known finite iterable"""
         if isinstance(v, list):
+            if any(isinstance(x, PoisonedSeq) for x in v):
+                return None
+
             def live():
                 k = 0
                 while k < len(v):
@@ -2042,6 +2186,9 @@ class Interp:
             return pull()
         if isinstance(v, RepeatV) and is_const(v.count) and cval(v.count).denominator == 1:
             return iter([v.value] * max(int(cval(v.count)), 0))
+        if isinstance(v, Obj) and v.cls is not None and "__iter__" in self._owner(v.cls, "__iter__").methods:
+            r = self.apply(self._getattr(v, "__iter__", None), [], {}, v.cls.node)
+            return self._iter(r) if not isinstance(r, Obj) else None
         return None
 
     # ------------------------------------------------------------------ calls
@@ -2085,6 +2232,8 @@ class Interp:
                 callee = self._getattr(base, f.attr, node)
             elif isinstance(base, ClassV):
                 callee = self._getattr(base, f.attr, node)
+            elif isinstance(base, NamedT) and f.attr not in ("index", "count"):
+                callee = self._getattr(base, f.attr, node)
             elif is_unknown(base):
                 return base
             else:
@@ -2121,7 +2270,7 @@ class Interp:
                 if isinstance(bv, ClassV):
                     if f.attr in bv.methods:
                         self.src.funcs_consulted.add(f"{bv.mod.rel}:{bv.name}.{f.attr}")
-                        return self.apply(FuncV(bv.methods[f.attr], bv.mod, None, obj, bv, f"{bv.name}.{f.attr}"), pos, kw, node, fr)
+                        return self.apply(FuncV(bv.methods[f.attr], bv.mod, bv.closure, obj, bv, f"{bv.name}.{f.attr}"), pos, kw, node, fr)
                     nxt = nxt or bv
                 elif isinstance(bv, Ref):
                     return self.apply(Ref(extend_ref(bv.name, f.attr)), [obj] + list(pos), kw, node, fr)
@@ -2153,6 +2302,8 @@ class Interp:
             return self._construct(callee, pos, kw, node)
         if isinstance(callee, Ref):
             return self._call_named(callee.name, pos, kw, node, fr)
+        if isinstance(callee, Obj) and callee.cls is not None and "__call__" in self._owner(callee.cls, "__call__").methods:
+            return self.apply(self._getattr(callee, "__call__", node), pos, kw, node, fr)
         if isinstance(callee, Native):
             rec = self._record(callee.name, callee, pos, kw, node)
             r = callee.fn(self, pos, kw, node)
@@ -2207,8 +2358,25 @@ class Interp:
                     return base.format(*[py(p) for p in pos], **{k: py(v) for k, v in kw.items()})
                 except (Unsupported, IndexError, KeyError, ValueError) as e:
                     return Unknown(f"str.format: {e}")
-            if attr in ("lower", "upper", "strip") and not pos:
+            if attr in ("lower", "upper", "strip", "title", "capitalize", "isdigit", "isalpha") and not pos:
                 return getattr(base, attr)()
+            if attr == "join" and len(pos) == 1:
+                xs = self._iterable(pos[0])
+                if xs is not None and all(isinstance(x, str) for x in xs):
+                    return base.join(xs)
+                return Unknown("str.join of values that are not literal strings")
+            if attr in ("startswith", "endswith", "split", "replace", "rstrip", "lstrip", "zfill", "rjust", "ljust", "partition", "rpartition", "removeprefix", "removesuffix", "find", "index", "count") \
+                    and all(isinstance(x, str) or (is_const(x) and cval(x).denominator == 1) or (isinstance(x, tuple) and all(isinstance(y, str) for y in x)) for x in pos) and not kw:
+                try:
+                    r = getattr(base, attr)(*[int(cval(x)) if isinstance(x, F.Rat) else x for x in pos])
+                except Exception as e:  # noqa
+                    return Crash(f"{type(e).__name__}: str.{attr}")
+                if isinstance(r, bool) or isinstance(r, str):
+                    return r
+                if isinstance(r, int):
+                    return F.const(r)
+                if isinstance(r, (list, tuple)):
+                    return type(r)(r)
             return Unknown(f"str.{attr}")
         if isinstance(base, DictV):
             if attr == "items" and not pos:
@@ -2217,13 +2385,50 @@ class Interp:
                 return tuple(kv for kv, _ in base.d.values())
             if attr == "values" and not pos:
                 return tuple(v for _, v in base.d.values())
-            if attr == "get" and pos:
+            if attr in ("get", "pop", "setdefault") and pos and len(pos) <= 2 and not kw:
                 k = key_of(pos[0])
-                if k is None:
-                    return Unknown("dict.get of an unhashable value")
+                if k is None or (isinstance(pos[0], F.Rat) and not is_const(pos[0])):
+                    if attr != "get":
+                        self._poison_dict(base, f"dict.{attr} with a key that is not a literal")
+                    return Unknown(f"dict.{attr} of a value that is not a literal key")
                 if k in base.d:
-                    return base.d[k][1]
-                return pos[1] if len(pos) > 1 else None
+                    v = base.d[k][1]
+                    if attr == "pop":
+                        self._log("dict", base, k, base.d[k])
+                        del base.d[k]
+                    return v
+                if attr == "pop" and len(pos) == 1:
+                    return Crash(f"KeyError: {ast.unparse(node) if node is not None else 'dict.pop'}")
+                dv = pos[1] if len(pos) > 1 else None
+                if attr == "setdefault":
+                    self._set_item(base, k, (pos[0], dv))
+                return dv
+            if attr == "update" and len(pos) <= 1:
+                items = []
+                if pos:
+                    if isinstance(pos[0], DictV):
+                        items = list(pos[0].d.items())
+                    else:
+                        seq = self._iterable(pos[0])
+                        pairs = [self._iterable(x) for x in seq] if seq is not None else None
+                        if pairs is None or any(q is None or len(q) != 2 or key_of(q[0]) is None for q in pairs):
+                            self._poison_dict(base, "dict.update with an unknown sequence")
+                            return None
+                        items = [(key_of(q[0]), (q[0], q[1])) for q in pairs]
+                items += [(("py", k_), (k_, v_)) for k_, v_ in kw.items()]
+                for k_, kv_ in items:
+                    self._set_item(base, k_, kv_)
+                return None
+            if attr == "copy" and not pos:
+                d2 = DictV()
+                d2.d.update(base.d)
+                return d2
+            if attr == "clear" and not pos:
+                for k_ in list(base.d):
+                    self._log("dict", base, k_, base.d[k_])
+                    del base.d[k_]
+                return None
+            self._poison_dict(base, f"dict.{attr} is not followed")
             return Unknown(f"dict.{attr}")
         if isinstance(base, SEQ):
             if attr == "index" and len(pos) == 1:
@@ -2266,6 +2471,13 @@ class Interp:
             return v
         return Unknown(f"method {attr} of {type(base).__name__}")
 
+    def _poison_dict(self, d, why):
+        """the dict may have been changed in a way that was not followed: nothing read from it afterwards is known"""
+        for k_ in list(d.d):
+            self._set_item(d, k_, (d.d[k_][0], Unknown(why)))
+        self._log("dictflag", d, d.poisoned)
+        d.poisoned = why
+
     def _list_method(self, lst, attr, pos, kw):
         """the mutating methods of a list act on the object (every alias sees them)"""
         n = len(pos)
@@ -2284,7 +2496,7 @@ class Interp:
             xs = self._iterable(pos[0])
             if xs is None:
                 self._touch_list(lst)
-                lst[:] = [Unknown("list extended by an unknown sequence")]
+                lst[:] = [PoisonedSeq("list extended by an unknown sequence")]
                 return None
             self._touch_list(lst)
             lst.extend(xs)
@@ -2311,6 +2523,22 @@ class Interp:
             return None
         if attr == "copy" and n == 0:
             return list(lst)
+        if attr == "appendleft" and n == 1 and not kw:
+            self._touch_list(lst)
+            lst.insert(0, pos[0])
+            return None
+        if attr == "popleft" and n == 0:
+            if not lst:
+                return Crash("IndexError: pop from an empty deque")
+            self._touch_list(lst)
+            return lst.pop(0)
+        if attr == "extendleft" and n == 1:
+            xs = self._iterable(pos[0])
+            if xs is not None:
+                self._touch_list(lst)
+                for x in xs:
+                    lst.insert(0, x)
+                return None
         if attr == "sort" and n == 0 and set(kw) <= {"reverse"} and all(is_const(x) for x in lst):
             self._touch_list(lst)
             lst.sort(key=cval, reverse=bool(self.truth(kw.get("reverse", False))))
@@ -2326,7 +2554,7 @@ class Interp:
                     break
         # anything else may have changed the list in a way that was not followed
         self._touch_list(lst)
-        lst[:] = [Unknown(f"list.{attr} not followed")]
+        lst[:] = [PoisonedSeq(f"list.{attr} not followed")]
         return Unknown(f"list.{attr}")
 
     def _call_named(self, name, pos, kw, node, fr):
@@ -2359,12 +2587,16 @@ class Interp:
         if any(is_unknown(p) for p in pos):
             return next(p for p in pos if is_unknown(p))
         if name == "len" and n == 1:
+            if isinstance(pos[0], list) and any(isinstance(x, PoisonedSeq) for x in pos[0]):
+                return pos[0][0]
             if isinstance(pos[0], (tuple, list, str)):
                 return F.const(len(pos[0]))
             if isinstance(pos[0], DictV):
                 return F.const(len(pos[0].d))
             if isinstance(pos[0], (IterV, RepeatV)):
                 return Unknown("len() of an iterator")
+            if isinstance(pos[0], Obj) and pos[0].cls is not None and "__len__" in self._owner(pos[0].cls, "__len__").methods:
+                return self.apply(self._getattr(pos[0], "__len__", node), [], {}, node, fr)
             return NotImplemented
         if name == "range" and 1 <= n <= 3:
             if all(is_const(p) and cval(p).denominator == 1 for p in pos):
@@ -2534,6 +2766,20 @@ class Interp:
             return IterV(iter([(a_, b_) for a_, b_ in zip(xs, xs[1:])]), "pairwise")
         if name.startswith("itertools."):
             return Unknown(f"{name} is not followed")
+        if name in ("set", "frozenset") and n <= 1 and not kw:
+            xs = self._iterable(pos[0]) if n else []
+            if xs is None:
+                return Unknown(f"{name}() of an unknown sequence")
+            out_ = []
+            for x in xs:
+                if not any(same_value(x, y) for y in out_):
+                    out_.append(x)
+            return tuple(out_)
+        if name == "collections.deque" and n <= 1 and not kw:
+            xs = self._iterable(pos[0]) if n else []
+            return list(xs) if xs is not None else Unknown("deque of an unknown sequence")       # (a list with appendleft / popleft)
+        if name == "collections.OrderedDict" and n <= 1:
+            return self._builtin("dict", pos, kw, node, fr)
         if name in ("tuple", "list") and n <= 1:
             if n == 0:
                 return () if name == "tuple" else []
@@ -2564,8 +2810,10 @@ class Interp:
                 d.d[("py", k_)] = (k_, v_)
             return d
         if name in ("max", "min") and n >= 1:
-            if n == 1 and isinstance(pos[0], (IterV, DictV)):
+            if n == 1 and isinstance(pos[0], (IterV, DictV, Obj)):
                 xs = self._iterable(pos[0])
+                if xs is None:
+                    return Unknown(f"{name}() of a value that is not a followed iterable")
             else:
                 xs = list(pos[0]) if n == 1 and isinstance(pos[0], SEQ) else list(pos)
             if kw:
@@ -2592,6 +2840,8 @@ class Interp:
             return NotImplemented
         if name == "float" and n == 1:
             return pos[0] if isinstance(pos[0], F.Rat) else NotImplemented
+        if name == "round" and n == 1 and not kw and is_const(pos[0]):
+            return F.const(round(cval(pos[0])))
         if name == "bool" and n == 1:
             t = self.truth(pos[0], node)
             return t if t is not None else NotImplemented
@@ -2603,6 +2853,27 @@ class Interp:
             return NotImplemented
         if name == "type" and n == 1 and not kw and isinstance(pos[0], Obj) and pos[0].cls is not None:
             return pos[0].cls
+        if name in ("collections.namedtuple", "namedtuple") and n == 2 and set(kw) <= {"defaults"}:
+            fields = pos[1].replace(",", " ").split() if isinstance(pos[1], str) else [x for x in (self._iterable(pos[1]) or [None])]
+            if not fields or not all(isinstance(x, str) for x in fields) or not isinstance(pos[0], str):
+                return Unknown("namedtuple with computed field names")
+            dflt = self._iterable(kw["defaults"]) if kw.get("defaults") is not None else []
+            if dflt is None:
+                return Unknown("namedtuple with unknown defaults")
+
+            def make(it_, p_, k_, nd_, fields=tuple(fields), dflt=tuple(dflt), tname=pos[0]):
+                vals = dict(zip(fields, p_))
+                if len(p_) > len(fields) or any(k in vals or k not in fields for k in k_):
+                    return Crash(f"TypeError: {tname}() got unexpected arguments")
+                vals.update(k_)
+                for k, dv in zip(fields[len(fields) - len(dflt):], dflt):
+                    vals.setdefault(k, dv)
+                if len(vals) != len(fields):
+                    return Crash(f"TypeError: {tname}() missing arguments")
+                t = NamedT(vals[k] for k in fields)
+                t._names = fields
+                return t
+            return Native("namedtuple " + pos[0], make)
         if name == "setattr" and n == 3 and not kw:
             if isinstance(pos[0], Obj) and isinstance(pos[1], str):
                 self._set_attr(pos[0], pos[1], pos[2])
@@ -2622,7 +2893,7 @@ class Interp:
             s = self._iterable(pos[0])
             if s is None:
                 return NotImplemented
-            tot = pos[1] if n > 1 else F.const(0)
+            tot = pos[1] if n > 1 else kw.get("start", F.const(0))
             for x in s:
                 tot = self.binop(ast.Add(), tot, x)
             return tot
@@ -2730,6 +3001,14 @@ class Interp:
             else:
                 self._clobber(pos[0], "np.copyto of a value that could not be evaluated")
             return None
+        if name in ("copy.copy", "copy.deepcopy") and n >= 1:
+            if isinstance(pos[0], F.Rat):
+                return clone(pos[0])
+            if isinstance(pos[0], list):
+                return list(pos[0]) if name == "copy.copy" else Unknown("deepcopy of a list")
+            if isinstance(pos[0], (tuple, str)) or pos[0] is None or isinstance(pos[0], bool):
+                return pos[0]
+            return Unknown(f"{name} of {type(pos[0]).__name__}")
         if name == "divmod" and n == 2 and not kw:
             return (self.binop(ast.FloorDiv(), pos[0], pos[1], node), self.binop(ast.Mod(), pos[0], pos[1], node))
         if name == "slice" and 1 <= n <= 3 and not kw:
@@ -2744,6 +3023,19 @@ class Interp:
             return F.fn("slice", *rs)
         if name == "isinstance" and n == 2:
             ts = pos[1] if isinstance(pos[1], SEQ) else (pos[1],)
+            if ts and all(isinstance(t, ClassV) for t in ts):
+                v = pos[0]
+                if isinstance(v, NamedT) and getattr(v, "_cls", None) is not None:
+                    return any(t is v._cls for t in ts)
+                if isinstance(v, Obj) and v.cls is not None:
+                    def anc(c, depth=0):
+                        yield c
+                        if depth < 8:
+                            for b in self._bases(c):
+                                yield from anc(b, depth + 1)
+                    return any(a is t for a in anc(v.cls) for t in ts)
+                if isinstance(v, (F.Rat, str, tuple, list, DictV, bool)) or v is None:
+                    return False                  # (an array / number / literal is never an instance of a class of the module)
             if all(isinstance(t, Ref) for t in ts):
                 names = {t.name for t in ts}
                 v = pos[0]
@@ -2761,13 +3053,62 @@ class Interp:
         return NotImplemented
 
     # ------------------------------------------------------------------ following functions of the module
+    def _fields(self, cls):
+        """(name, default expression | None) of the annotated class-level names, in order (dataclass / NamedTuple fields)"""
+        out = []
+        for st in cls.node.body:
+            if isinstance(st, ast.AnnAssign) and isinstance(st.target, ast.Name):
+                ann = ast.unparse(st.annotation)
+                if "ClassVar" in ann:
+                    continue
+                out.append((st.target.id, st.value))
+        return out
+
+    def _record_class(self, cls):
+        """'dataclass' / 'namedtuple' when the class is one whose constructor takes its annotated fields, else None"""
+        for d in cls.node.decorator_list:
+            nm = ast.unparse(d.func if isinstance(d, ast.Call) else d)
+            if nm in ("dataclass", "dataclasses.dataclass"):
+                return "dataclass"
+        for b in cls.node.bases:
+            if ast.unparse(b) in ("NamedTuple", "typing.NamedTuple"):
+                return "namedtuple"
+        return None
+
     def _construct(self, cls, pos, kw, node):
+        kind = self._record_class(cls)
+        if kind is not None and "__init__" not in cls.methods and "__new__" not in cls.methods:
+            fields = self._fields(cls)
+            names = [n for n, _d in fields]
+            if len(pos) > len(names) or any(k not in names for k in kw) or any(k in names[:len(pos)] for k in kw):
+                return Crash(f"TypeError: {cls.name}() got unexpected arguments")
+            vals = dict(zip(names, pos))
+            vals.update(kw)
+            for n, dflt in fields:
+                if n not in vals:
+                    if dflt is None:
+                        return Crash(f"TypeError: {cls.name}() missing argument {n}")
+                    if isinstance(dflt, ast.Call) and ast.unparse(dflt.func) in ("field", "dataclasses.field"):
+                        return Unknown(f"dataclass field {n} with a field(...) default")
+                    vals[n] = self.ev(dflt, Frame(None, None, cls.mod))
+            if kind == "namedtuple":
+                t = NamedT(vals[n] for n in names)
+                t._names = tuple(names)
+                t._cls = cls
+                return t
+            obj = Obj(cls)
+            for n in names:
+                obj.attrs[n] = vals[n]
+            post = self._owner(cls, "__post_init__").methods.get("__post_init__")
+            if post is not None:
+                self._invoke(FuncV(post, cls.mod, cls.closure, obj, cls, f"{cls.name}.__post_init__"), [], {}, node)
+            return obj
         obj = Obj(cls)
         own = self._owner(cls, "__init__")
         init = own.methods.get("__init__")
         if init is not None:
             self.src.funcs_consulted.add(f"{own.mod.rel}:{own.name}.__init__")
-            self._invoke(FuncV(init, own.mod, None, obj, own, f"{own.name}.__init__"), pos, kw, node)
+            self._invoke(FuncV(init, own.mod, own.closure, obj, own, f"{own.name}.__init__"), pos, kw, node)
         elif self.hook is not None:
             r = self.hook(self, cls.name + ".__init__", [obj] + list(pos), kw, node)
             if r is NotImplemented and (pos or kw):
@@ -2809,28 +3150,31 @@ class Interp:
             bound[a.kwarg.arg] = d
         dfr = Frame(None, f.closure, f.mod)
         ndef = len(a.defaults)
+        fixed = getattr(f, "defaults", None)
         for i, p in enumerate(params):
             if p not in bound:
                 j = i - (len(params) - ndef)
                 if j < 0:
                     raise Unsupported(f"{f.qual}: missing argument {p}")
-                bound[p] = self.ev(a.defaults[j], dfr)
-        for p, d in zip(kwonly, a.kw_defaults):
+                bound[p] = fixed[j] if fixed is not None else self.ev(a.defaults[j], dfr)
+        for k_, (p, d) in enumerate(zip(kwonly, a.kw_defaults)):
             if p not in bound:
                 if d is None:
                     raise Unsupported(f"{f.qual}: missing keyword-only argument {p}")
-                bound[p] = self.ev(d, dfr)
+                bound[p] = f.kw_defaults[k_] if fixed is not None else self.ev(d, dfr)
         fr.vars.update(bound)
         rec = self._record(f.qual, f, [v for v in vals], kw, node, bound={k: clone(v) for k, v in bound.items()})
         if not isinstance(fn, ast.Lambda):
             odd = [ast.unparse(d) for d in fn.decorator_list if not _transparent_decorator(d)]
-            if odd:
+            if odd and not getattr(f, "decorated", False):
                 # what is called is whatever the decorator returned, not this body
                 rec.result = Unknown(f"{f.qual} is wrapped by a decorator the evaluator does not follow: {odd[0]}")
                 return rec.result
             if _is_generator(fn):
                 # a generator function: the body runs when items are asked for
-                r = IterV(self._gen_body(fn, fr), f"generator {f.qual}")
+                r = IterV(None, f"generator {f.qual}")
+                r.gen = self._gen_body(fn, fr, r)
+                r.is_cm = any(ast.unparse(d.func if isinstance(d, ast.Call) else d) in ("contextlib.contextmanager", "contextmanager") for d in fn.decorator_list)
                 rec.result = r
                 return r
         self.depth += 1
@@ -2852,11 +3196,13 @@ class Interp:
         return r
 
     # ------------------------------------------------------------------ generator functions
-    def _gen_body(self, fn, fr):
+    def _gen_body(self, fn, fr, itv):
         fr.gen = True          # (its loops are not summarised: an undecided test in it is not lowered)
+        itv.retval = None
         try:
             yield from self._gen_run(fn.body, fr)
-        except _Return:
+        except _Return as ret:
+            itv.retval = ret.v
             return
 
     def _gen_run(self, stmts, fr):
@@ -2875,11 +3221,12 @@ class Interp:
                     yield v
                     got = None                   # (what `send` would deliver: the consumers modelled here only ask for the next item)
                 else:
-                    src = self._iter(self.ev(y.value, fr))
+                    srcv = self.ev(y.value, fr)
+                    src = self._iter(srcv)
                     if src is None:
                         raise Unsupported(f"`yield from` an unknown sequence at line {st.lineno}")
                     yield from src
-                    got = Unknown("value of `yield from`")
+                    got = getattr(srcv, "retval", None) if isinstance(srcv, IterV) and hasattr(srcv, "retval") else None
                 if isinstance(st, ast.Assign):
                     for t in st.targets:
                         self._bind_target(t, got, fr, st)
@@ -3063,10 +3410,35 @@ class Interp:
         raise _Continue()
 
     def _s_FunctionDef(self, st, fr):
-        self._set_var(fr, st.name, FuncV(st, fr.mod or self.mod, fr, None, None, getattr(st, "_vqual", st.name)))
+        self._set_var(fr, st.name, self._decorate(self._with_defaults(FuncV(st, fr.mod or self.mod, fr, None, None, getattr(st, "_vqual", st.name)), fr), fr))
+
+    def _decorate(self, f, fr):
+        """what a `def` binds: the function object passed through its decorators, innermost first (memoisation and marker decorators
+        leave it as it is; a decorator defined in the module is called with it)"""
+        v = f
+        for d in reversed(f.node.decorator_list):
+            if _transparent_decorator(d):
+                continue
+            try:
+                dv = self.ev(d, fr)
+                v = self.apply(dv, [v], {}, d, fr) if isinstance(dv, (FuncV, Native)) else Unknown(f"decorator {ast.unparse(d)} is not followed")
+            except Unsupported as e:
+                v = Unknown(str(e))
+            except (_Raise, _CrashSig):
+                v = Unknown(f"decorator {ast.unparse(d)} raises")
+            if is_unknown(v):
+                return Unknown(f"{f.qual} is wrapped by a decorator the evaluator does not follow: {ast.unparse(d)}")
+        f.decorated = True
+        return v
 
     def _s_ClassDef(self, st, fr):
-        self._set_var(fr, st.name, Unknown(f"class {st.name} defined inside a function"))
+        if st.keywords or any(not _transparent_decorator(d) and ast.unparse(d.func if isinstance(d, ast.Call) else d) not in ("dataclass", "dataclasses.dataclass")
+                              for d in st.decorator_list):
+            self._set_var(fr, st.name, Unknown(f"class {st.name} with a metaclass / a decorator the evaluator does not follow"))
+            return
+        c = ClassV(st.name, st, fr.mod or self.mod)
+        c.closure = fr
+        self._set_var(fr, st.name, c)
 
     def _s_Assign(self, st, fr):
         v = self.ev(st.value, fr)
@@ -3085,6 +3457,8 @@ class Interp:
         elif isinstance(t, (ast.Tuple, ast.List)):
             if isinstance(v, (IterV, DictV, str)) or (isinstance(v, RepeatV) and is_const(v.count)):
                 v = tuple(self._iterable(v))
+            if isinstance(v, list) and any(isinstance(x, PoisonedSeq) for x in v):
+                v = v[0]
             stars = [k for k, e in enumerate(t.elts) if isinstance(e, ast.Starred)]
             if isinstance(v, SEQ) and not stars and len(v) == len(t.elts):
                 for e, x in zip(t.elts, v):
@@ -3138,7 +3512,7 @@ class Interp:
             ix = self._py_index(t.slice, fr)
             if ix is None:
                 self._touch_list(base)
-                base[:] = [Unknown("list store with a non-constant index")]
+                base[:] = [Unknown("list store with a non-constant index") for _x in base]
                 return
             self._touch_list(base)
             try:
@@ -3216,7 +3590,7 @@ class Interp:
                     ix = self._py_index(t.slice, fr)
                     if ix is None or isinstance(ix, slice):
                         self._touch_list(base)
-                        base[:] = [Unknown("augmented assignment to a list element with a non-constant index")]
+                        base[:] = [Unknown("augmented assignment to a list element with a non-constant index") for _x in base]
                         return
                     try:
                         cur = base[ix]
@@ -3270,7 +3644,7 @@ class Interp:
                 xs = self._iterable(rhs)
                 self._touch_list(cur)
                 if xs is None:
-                    cur[:] = [Unknown("list extended by an unknown sequence")]
+                    cur[:] = [PoisonedSeq("list extended by an unknown sequence")]
                 else:
                     cur.extend(xs)
             elif is_const(rhs) and cval(rhs).denominator == 1:
@@ -3278,7 +3652,7 @@ class Interp:
                 cur[:] = cur * int(cval(rhs))
             else:
                 self._touch_list(cur)
-                cur[:] = [Unknown("list repeated an unknown number of times")]
+                cur[:] = [PoisonedSeq("list repeated an unknown number of times")]
             return
         new = self.binop(st.op, cur, rhs, st)
         # integers are rebound, not updated: counters (`j += 1.0`) and the operators only integers have (`n >>= 1`, `n //= 2`)
@@ -3379,8 +3753,12 @@ class Interp:
             self._log("dict", e[1], e[2], e[1].d.get(e[2], _MISSING))
             e[1].d[e[2]] = (e[1].d.get(e[2], (None, None))[0], Unknown(why))
         elif k == "list":
-            self._touch_list(e[1])
-            e[1][:] = [Unknown(why)]
+            lst, old = e[1], e[2]
+            self._touch_list(lst)
+            if len(lst) == len(old) and not any(isinstance(x, PoisonedSeq) for x in list(lst) + list(old)):
+                lst[:] = [x if (x is y or same_value(x, y)) and not is_unknown(x) else Unknown(why) for x, y in zip(lst, old)]
+            else:
+                lst[:] = [PoisonedSeq(why)]
 
     def _loop_exit(self, rec, st, fr, arm):
         """`if test: <arm that ends in break>` in the single pass over a summarised loop: the test is one of the loop's exits; the pass goes
@@ -3409,7 +3787,7 @@ class Interp:
         if is_crash(subj):
             raise _CrashSig(subj)
 
-        def matches(pat):
+        def matches(pat, subj=subj):
             if isinstance(pat, ast.MatchValue):
                 return self.compare(ast.Eq(), subj, self.ev(pat.value, fr))
             if isinstance(pat, ast.MatchSingleton):
@@ -3417,14 +3795,29 @@ class Interp:
             if isinstance(pat, ast.MatchOr):
                 und = False
                 for q in pat.patterns:
-                    r = matches(q)
+                    r = matches(q, subj)
                     if r is True:
                         return True
                     if r is not False:
                         und = True
                 return None if und else False
+            if isinstance(pat, ast.MatchSequence) and not any(isinstance(q, ast.MatchStar) for q in pat.patterns):
+                if not isinstance(subj, SEQ):
+                    if isinstance(subj, (str, DictV)) or subj is None or isinstance(subj, bool) or is_const(subj):
+                        return False
+                    raise Unsupported(f"sequence pattern on a value that is not a literal sequence at line {st.lineno}")
+                if len(subj) != len(pat.patterns):
+                    return False
+                res = True
+                for item, q in zip(subj, pat.patterns):
+                    r = matches(q, item)
+                    if r is False:
+                        return False
+                    if r is not True:
+                        res = None
+                return res
             if isinstance(pat, ast.MatchAs):
-                r = True if pat.pattern is None else matches(pat.pattern)
+                r = True if pat.pattern is None else matches(pat.pattern, subj)
                 if r is True and pat.name is not None:
                     self._set_var(fr, pat.name, subj)
                 return r
@@ -3441,14 +3834,60 @@ class Interp:
                 raise Unsupported(f"undecided `case` at line {case.pattern.lineno}")
 
     def _s_With(self, st, fr):
+        """context managers: contextlib.suppress(E, ...) is `try: body except (E, ...): pass`; a generator function used through
+        contextlib.contextmanager runs to its `yield` on entry and to its end on a normal exit; anything else only evaluates its
+        expression (errstate, catch_warnings, open ...: the body is what matters)"""
+        suppress = []
+        gens = []
         for it in st.items:
             try:
                 v = self.ev(it.context_expr, fr)
             except Unsupported as e:
                 v = Unknown(str(e))
+            p = fn_parts(v) if isinstance(v, F.Rat) else None
+            if p is not None and p[0] == "call:contextlib.suppress":
+                names = []
+                for a in p[1]:
+                    nm = sym_name(a) if isinstance(a, F.Rat) else None
+                    names.append(nm[1:].split(".")[-1] if nm and nm.startswith("@") else None)
+                suppress.append(names)
+            if isinstance(v, IterV) and v.what.startswith("generator ") and getattr(v, "is_cm", False):
+                try:
+                    entered = self._next(v)
+                except _Stop:
+                    raise Unsupported(f"context manager generator at line {st.lineno} does not yield")
+                gens.append(v)
+                v = entered
             if it.optional_vars is not None:
                 self._bind_target(it.optional_vars, v, fr, st)
-        self.run(st.body, fr)
+        try:
+            self.run(st.body, fr)
+        except (_Raise, _CrashSig) as e:
+            if gens:
+                raise Unsupported(f"an exception inside a `with` on a generator-based context manager at line {st.lineno}")
+            kind = _raised_class(e.node) if isinstance(e, _Raise) else e.crash.why.split(":")[0]
+            for names in suppress:
+                if kind is None or any(n_ is None for n_ in names):
+                    raise Unsupported(f"cannot decide whether contextlib.suppress at line {st.lineno} catches the exception")
+                h_ = ast.ExceptHandler(type=ast.Tuple(elts=[ast.Name(id=n_) for n_ in names]), name=None, body=[])
+                c = _catches(h_, kind)
+                if c is None:
+                    raise Unsupported(f"cannot decide whether contextlib.suppress at line {st.lineno} catches {kind}")
+                if c:
+                    return
+            raise
+        except (_Return, _Break, _Continue):
+            self._leave_cms(gens, st)
+            raise
+        self._leave_cms(gens, st)
+
+    def _leave_cms(self, gens, st):
+        for g in reversed(gens):
+            try:
+                self._next(g)
+            except _Stop:
+                continue
+            raise Unsupported(f"context manager generator at line {st.lineno} yields twice")
 
     def _s_Try(self, st, fr):
         """the body; an exception raised in it for certain (a `raise` reached on the evaluated path, an expression that raises: Crash) is
@@ -3551,9 +3990,12 @@ class Interp:
             else:
                 self.commit(j)
                 return
-            items = self._iterable(it)
             rec = LoopRec(st, "for")
-            rec.trip = F.const(len(items))
+            if isinstance(it, IterV):
+                # (how many items the loop takes is not known: whatever asks the iterator for more afterwards is not followed)
+                it.broken = f"{it.what} was consumed by the loop at line {st.lineno}, which is left under a test the evaluator does not decide"
+            else:
+                rec.trip = F.const(len(self._iterable(it)))
             rec.partial = True
             try:
                 self._summarize(rec, st, fr, None)
@@ -3741,6 +4183,16 @@ def trip_count(rec):
         neg = not neg
         p = fn_parts(p[1][0])
     if p is None or not p[0].startswith("cmp:"):
+        # `while c:` with c -= 1 (c a non-negative integer)
+        for n in rec.carried:
+            cs = rec.in_sym(n)
+            if not neg and t.equals(cs):
+                try:
+                    d = rec.out[n] - cs
+                    if d.is_const() and cval(d) == -1 and isinstance(rec.init[n], F.Rat):
+                        return rec.init[n]
+                except Exception:  # noqa
+                    pass
         return None
     op, (a, b) = p[0][4:], p[1]
     if neg:
